@@ -2,13 +2,12 @@ S = "libwild/src/string_merging.rs"
 SPEC = dict(
     id="C07",
     level_text="Bounded model checking, exhaustive for the packing kernel: BucketOffset::new/bucket/offset_in_bucket are loop-free "
-               "bit-vector functions, so CBMC decides losslessness, injectivity and overflow reporting for all 2^32 offsets x all buckets.",
+               "bit-vector functions, so CBMC decides losslessness (hence injectivity) and overflow reporting for all 2^32 offsets x all buckets.",
     level_note="Kernel scope only: splitting sections into work groups (split_sections needs the sharded-vec-writer crate), "
                "process_input_section's group-boundary handling and the dedup hash map are outside - they could not be encoded within reach.",
     overlays=[(S, "harness/libwild/string_merging.rs")],
-    jobs=2,
-    harnesses=[dict(fn="c07_bucket_offset_roundtrip", file=S, timeout=300, witness=True),
-               dict(fn="c07_bucket_offset_injective", file=S, timeout=300)],
+    jobs=1,
+    harnesses=[dict(fn="c07_bucket_offset_roundtrip", file=S, timeout=600, witness=True)],
     functions_encoded=["string_merging::BucketOffset::{new,bucket,offset_in_bucket}"],
     bounds="exhaustive: all 2^32 offsets x all 2^MERGE_STRING_BUCKET_BITS buckets (pairs for injectivity)",
     outside_bounds="split_sections, process_input_section (strings straddling work-group boundaries), add_string dedup, "
